@@ -9,7 +9,7 @@ TECH = "deterministic simulation with fault injection: seeded search over multi-
 
 CLAIMED = {
     "C02": dict(
-        text="Seeded histories over worlds of 2-4 dispatch-family contracts (14 programs: 0..3 interfaces, generic contract, same name in several kinds, digit names, StdError and own error types; generated impl Contract and generated entry points): instantiate / exec / query / sudo / migrate from several senders with funds, nested calls between contracts (so contracts are senders too), scripted failures at any depth, block jumps. Per delivery the monitor requires exactly one handler entry = the addressed one, every argument under its own name, the context echo (sender, funds, block, contract address, storage sentinel, querier-read balance, api probe) equal to the link's own view, and the chain to receive the handler's own response / error (as the declared error type) / query encoding. Exploration level.",
+        text="Seeded histories over worlds of 2-4 dispatch-family contracts (dispatch family of 18 programs: 0..3 interfaces, generic contract with an interface, a contract without entry_points, 10-13 parameter signatures, Binary-returning queries, same name in several kinds, digit names, StdError and own error types; generated impl Contract and generated entry points): instantiate / exec / query / sudo / migrate from several senders with funds, nested calls between contracts (so contracts are senders too), scripted failures at any depth, block jumps, code replacement by other programs; a quarter of the runs on the custom chain (native and bridged handlers), and a share in a second, lean build configuration of sylvia. Per delivery the monitor requires exactly one handler entry = the addressed one, every argument under its own name, the context echo (sender, funds, block, contract address, storage sentinel, querier-read balance, api probe) equal to the link's own view, and the chain to receive the handler's own response / error (as the declared error type) / query encoding. Exploration level.",
         ref="DESIGN.md section 4 C02",
         note="argument values from a closed type set; nested documents are attributed to handlers by SPEC + the owning part's own reading; handler names of regular shape only (wire name = method name)",
     ),
@@ -41,7 +41,7 @@ CLAIMED = {
     "C12": dict(
         text="Twin chains from one seed: world P stores the programs through the generated CodeId::store_code and is driven only through generated proxies (instantiate with label / admin / funds / salt options, exec with and without funds, query, sudo, migrate; contract and interface proxies); world R stores the same programs behind fault links and is driven only through the raw operations with JSON text composed from the SPEC (never by serialising a sylvia type). Histories of 3-12 calls with arbitrary arguments, senders (incl. non-admins), unaffordable funds, nested scripted calls and failures, block jumps. After every step: addresses, AppResponse events and data, query values, handler entries with arguments and context, helper builds, full raw storage of every contract, contract info (code id, admin, label, creator) and all balances must agree; a handler error on R must surface on P as the contract's error type with the same value; a proxy must not panic where R returns an error. Exploration level.",
         ref="DESIGN.md section 4 C12",
-        note="Empty-custom chain only; 13 dispatch-family programs with regular names; the label used when none is set is mirrored, not asserted",
+        note="dispatch-family programs with regular names on the Empty chain (3/4 of the runs) and the custom-chain programs on a chain with a custom module (1/4); the label used when none is set is mirrored, not asserted",
     ),
     "C06": dict(
         text="Run-time clause by simulation: twin worlds over 30 override programs (none, each single kind, all six, seeded subsets; migrate handler present/absent; reply handler absent / replies feature / legacy). World 0 deploys, for every kind the SPEC says is generated, the generated entry_points::<kind> function and for overridden kinds the user's function (ContractWrapper); world 1 is the reference deployment of the same program. The same seeded raw history (spec-built documents for generated kinds, the override's own documents for overridden kinds, sub-messages with hand-made reply requests, admin and non-admin migrations, scripted failures) runs on both; after every step outcomes, every delivery / entry / return, storage, contract info and balances must agree, an overridden kind must reach only the user's function, and the C02 monitor must hold for every generated kind in both worlds. Existence / absence clause by build gate: the world links entry_points::<kind> for every kind that must exist, and a glob-import ambiguity probe fails the build when an entry point exists that must not. Exploration level.",
